@@ -129,6 +129,25 @@ def clientRaw (st : St) (c : String) (can : String) : Option Int :=
   let k := (can.drop 1).toNat!
   ((st.clients.find? (fun e => e.1 == c)).bind (fun e => (e.2.canMid.find? (fun m => m.1 == k)))).map (·.2)
 
+/-- the broker could not write its answer: the model has no write errors, so the driver composes the packet with a lost
+    connection (what processSession does on the error) and marks the connection closed for the observer -/
+def lostOnWrite (w : World) (c : String) : World :=
+  let w := applyOp w (.drop c)
+  if w.out.any (fun e => e.1 == c && e.2 == .closed) then w else { w with out := w.out ++ [(c, .closed)] }
+
+/-- SUBACK, UNSUBACK, PUBREC and PINGRESP are written by Process itself, which returns the write error: the session ends.
+    (PUBACK and PUBCOMP are written from the publish workers' call-back, where the error is dropped.) -/
+def directAnswer : Pkt → Bool
+  | .suback _ _ | .unsuback _ | .pubrec _ | .pingresp => true
+  | _ => false
+
+/-- apply a packet of client `c`; on a connection whose writes fail, a direct answer ends the session -/
+def packetOp (st : St) (c : String) (pkt : CPkt) : World :=
+  let before := st.w.out.length
+  let w := applyOp st.w (.packet c pkt)
+  if st.muted.contains c && Wasp.Broker.writable w c && (w.out.drop before).any (fun e => e.1 == c && directAnswer e.2)
+  then lostOnWrite w c else w
+
 def known (st : St) (c : String) : Bool := st.clients.any (fun e => e.1 == c)
 
 /-- can the client still write to its connection? (closed by the broker, or nobody reads it) -/
@@ -153,6 +172,7 @@ def step (st : St) (line : String) : St × String :=
       applyOp w (.packet c (.publish (unTopic t) (Driver.toHex [UInt8.ofNat (k / 256), UInt8.ofNat (k % 256)]) q.toNat! false false ((k % 65535 + 1 : Nat) : Int)))) st.w
     observe { st with w } "ok"
   | ["connect", c, node, client, mount, ka, will] =>
+    let client := if client = "~" then "" else client   -- `~` stands for the empty client identifier
     let authOk := !(mount.startsWith "!")
     let mp := if authOk then mount else (mount.drop 1).toString
     -- two live records of this client id on the node: which one the real take-over lookup displaces depends on Go's map order
@@ -174,15 +194,17 @@ def step (st : St) (line : String) : St × String :=
   | ["sub", c, mid, spec] =>
     if !known st c then (st, "noclient") else
     if !writable st c then observe st "write-failed" else
-    observe { st with w := applyOp st.w (.packet c (.subscribe (mid.toInt?.getD 0) (parseSubs spec))) } "ok"
+    -- (when the SUBACK cannot be written Process returns before the retained replay: scripts that let a SUBSCRIBE fail
+    -- this way use filters without retained matches)
+    observe { st with w := packetOp st c (.subscribe (mid.toInt?.getD 0) (parseSubs spec)) } "ok"
   | ["unsub", c, mid, spec] =>
     if !known st c then (st, "noclient") else
     if !writable st c then observe st "write-failed" else
-    observe { st with w := applyOp st.w (.packet c (.unsubscribe (mid.toInt?.getD 0) ((spec.splitOn ",").map unTopic))) } "ok"
+    observe { st with w := packetOp st c (.unsubscribe (mid.toInt?.getD 0) ((spec.splitOn ",").map unTopic)) } "ok"
   | ["pub", c, t, p, q, r, d, mid] =>
     if !known st c then (st, "noclient") else
     if !writable st c then observe st "write-failed" else
-    observe { st with w := applyOp st.w (.packet c (.publish (unTopic t) (if p = "-" then "" else p) q.toNat! (r = "1") (d = "1") (mid.toInt?.getD 0))) } "ok"
+    observe { st with w := packetOp st c (.publish (unTopic t) (if p = "-" then "" else p) q.toNat! (r = "1") (d = "1") (mid.toInt?.getD 0)) } "ok"
   | ["ack", c, kind, can] =>
     if !known st c then (st, "noclient") else
     match clientRaw st c can with
@@ -243,8 +265,8 @@ def step (st : St) (line : String) : St × String :=
       match mc with
       | some (m, cl) =>
         if (sessByClientID n.dist m cl).length > 1 then (st, "ping-ambiguous")
-        else observe { st with w := applyOp st.w (.packet c .pingreq) } "ok"
-      | none => observe { st with w := applyOp st.w (.packet c .pingreq) } "ok"
+        else observe { st with w := packetOp st c .pingreq } "ok"
+      | none => observe { st with w := packetOp st c .pingreq } "ok"
   | ["disconnect", c] =>
     if !known st c then (st, "noclient") else
     if !writable st c then observe st "write-failed" else
@@ -260,7 +282,11 @@ def step (st : St) (line : String) : St × String :=
     match Driver.fromHex hex with
     | some bs =>
       let r := Wasp.Wire.rawBytes st.w c (bs.map (·.toNat))
-      observe { st with w := applyOp st.w (.raw c (bs.map (·.toNat))) } (if r.2 then "ok" else "write-failed")
+      let w := applyOp st.w (.raw c (bs.map (·.toNat)))
+      -- a CONNECT accepted on a connection whose CONNACK cannot be written: the session exists, and ends at once
+      let got (w : World) : Bool := w.nodes.any (fun n => n.reg.any (fun s => s.conn == c))
+      let w := if st.muted.contains c && !got st.w && got w then lostOnWrite w c else w
+      observe { st with w } (if r.2 then "ok" else "write-failed")
     | none => (st, "bad-op")
   | ["gossip"] => observe { st with w := applyOp st.w .gossipAll } "ok"
   | ["bc", f, t] => observe { st with w := applyOp st.w (.gossip f.toNat! t.toNat!) } "ok"
